@@ -77,7 +77,7 @@ def _np_stub() -> Stub:
 def _quad_text(q: Optional[Sequence[Any]]) -> str:
     if q is None:
         return "no angle"
-    return "-".join(x if isinstance(x, str) else f"{x[1]}({x[0]})" for x in q)
+    return "-".join(x if isinstance(x, str) else (f"{x[1]}({x[0]})" if isinstance(x, tuple) and len(x) == 2 else repr(x)) for x in q)
 
 
 # ---------------------------------------------------------------------------------------------------------------------
@@ -238,6 +238,29 @@ def check_returned(chk, fi, res, module: str) -> None:
 
 
 # ---------------------------------------------------------------------------------------------------------------------
+# tertiary.torsion_angle: the wrapper hands the coordinates of its four atoms to the torsion function in order
+# ---------------------------------------------------------------------------------------------------------------------
+def check_wrapper(chk, ta) -> bool:
+    """True when the rule was decided by evaluation (ok or violation); False: not evaluable, the caller reads the pinned form."""
+    repo = chk.repo
+    params = [a.arg for a in ta.node.args.args]
+    if len(params) != 4:
+        return False
+    env: Dict[str, Any] = {p: Stub(f"atom {i + 1}", name=f"X{i + 1}", coordinates=Stub(f"xyz {i + 1}", tag=f"atom {i + 1}")) for i, p in enumerate(params)}
+    env.update({"calculate_torsion_angle_coords": _tor_stub, "np": _np_stub(), "numpy": _np_stub()})
+    body = [s for s in ta.node.body if not (isinstance(s, ast.Expr) and isinstance(s.value, ast.Constant))]
+    try:
+        kind, val = BlockEvalX(repo, T1, env).run(body)
+    except Exception:
+        return False
+    if kind != "return" or not isinstance(val, Tor):
+        return False
+    want = tuple(f"atom {i + 1}" for i in range(4))
+    chk.expect(tuple(val.quad) == want, "torsion-wrapper", ta.where, "torsion_angle passes the coordinates of its four atoms to calculate_torsion_angle_coords in order (evaluated)", f"torsion_angle passes the coordinates of {list(val.quad)} instead of atoms 1, 2, 3, 4 in order", K(ta, "wrapper"), expected=list(want), found=list(val.quad))
+    return True
+
+
+# ---------------------------------------------------------------------------------------------------------------------
 # chi of tertiary.Residue3D
 # ---------------------------------------------------------------------------------------------------------------------
 def _t1_cases() -> List[Tuple[str, List[str]]]:
@@ -248,6 +271,8 @@ def _t1_cases() -> List[Tuple[str, List[str]]]:
         ("no base atoms", list(SUGAR)),
         ("a purine ring without N9", [a for a in pu if a != "N9"]),
         ("a purine ring without C4", [a for a in pu if a != "C4"]),
+        ("a purine ring without C2", [a for a in pu if a != "C2"]),
+        ("a purine ring without N1", [a for a in pu if a != "N1"]),
         ("a pyrimidine ring without C2", [a for a in py if a != "C2"]),
         ("a pyrimidine ring without N1", [a for a in py if a != "N1"]),
         ("a purine ring but no O4'", [a for a in pu if a != "O4'"]),
@@ -282,7 +307,10 @@ def eval_chi_t1(chk, sp) -> Tuple[Dict[str, Any], Dict[str, Any], int, Dict[str,
         for label, avail in _t1_cases():
             atoms = {a: Stub(f"atom {a}", name=a, tag=a, coordinates=Stub(f"xyz {a}", tag=a)) for a in avail}
             me = ClassStub(repo, T1, "Residue3D", {"one_letter_name": letter, "find_atom": (lambda nm, atoms=atoms: atoms.get(nm)), "atoms": tuple(atoms.values())}, glob, label=f"residue {letter}")
-            got = me.chi
+            try:
+                got = me.chi
+            except _STUB_LIMITS as ex:
+                raise Unknown(f"{type(ex).__name__}: {ex}")
             n += 1
             want = _expected_chi(kind, avail, sp)
             if isinstance(got, Tor):
@@ -313,10 +341,6 @@ def check_chi_t1(chk, sp) -> Optional[Dict[str, Optional[Tuple[str, ...]]]]:
         chk.ok("chi-eval", chi.where, f"Residue3D.chi is not evaluable on stub residues ({str(ex)[:120]}): the pinned-form reading decides")
         _pinned_chi_t1(chk, sp)
         return None
-    except _STUB_LIMITS as ex:
-        chk.ok("chi-eval", chi.where, f"Residue3D.chi is not evaluable on stub residues ({type(ex).__name__}: {str(ex)[:100]}): the pinned-form reading decides")
-        _pinned_chi_t1(chk, sp)
-        return None
     except Exception as ex:
         chk.violation("chi-dispatch", chi.where, f"Residue3D.chi raises {type(ex).__name__} ({ex}) for some base letter / set of atoms", K(chi, "dispatch-raises"))
         return None
@@ -324,7 +348,7 @@ def check_chi_t1(chk, sp) -> Optional[Dict[str, Optional[Tuple[str, ...]]]]:
         not wa,
         "chi-atoms",
         chi.where,
-        f"whenever chi is a torsion it is torsion_angle over O4'-C1'-N9-C4 or O4'-C1'-N1-C2 in this order ({n} cases: 12 one-letter names x 9 sets of atoms evaluated through the helpers chi calls)",
+        f"whenever chi is a torsion it is torsion_angle over O4'-C1'-N9-C4 or O4'-C1'-N1-C2 in this order ({n} cases: 12 one-letter names x {n // 12} sets of atoms evaluated through the helpers chi calls)",
         "chi is computed over atoms that are not an IUPAC glycosidic quadruple: " + "; ".join(f"{k} -> {v}" for k, v in list(wa.items())[:3]),
         K(chi, "atoms"),
         expected=[sp["chi"]["purine"], sp["chi"]["pyrimidine"]],
@@ -581,7 +605,10 @@ def check_table_v2(chk, sp) -> Optional[Dict[str, Optional[Tuple[str, ...]]]]:
     try:
         for si, (label, segments) in enumerate(_scenarios(names)):
             want = _expected_rows(segments, sp)
-            got = eval_table_v2(chk, ta, segments)
+            try:
+                got = eval_table_v2(chk, ta, segments)
+            except _STUB_LIMITS as ex:
+                raise Unknown(f"{type(ex).__name__}: {ex}")
             if set(got) != set(want):
                 bad["backbone-atoms"][label] = f"rows for residues {sorted(got)} instead of {sorted(want)}"
                 continue
@@ -615,10 +642,6 @@ def check_table_v2(chk, sp) -> Optional[Dict[str, Optional[Tuple[str, ...]]]]:
                             bad["chi-atoms"][case] = f"{_quad_text(gq)}, expected {_quad_text(wq)}"
     except Unknown as ex:
         chk.ok("chi-eval", ta.where, f"Structure.torsion_angles is not evaluable on stub segments ({str(ex)[:120]}): the pinned-form reading decides")
-        _pinned_table_v2(chk, sp)
-        return None
-    except _STUB_LIMITS as ex:
-        chk.ok("chi-eval", ta.where, f"Structure.torsion_angles is not evaluable on stub segments ({type(ex).__name__}: {str(ex)[:100]}): the pinned-form reading decides")
         _pinned_table_v2(chk, sp)
         return None
     except Exception as ex:
